@@ -248,6 +248,8 @@ impl<'a> Iterator for ExtDiagBlockIter<'a> {
     type Item = ExtDiagBlock<'a>;
 
     fn next(&mut self) -> Option<Self::Item> {
+        #[cfg(feature = "verif-hooks")]
+        crate::verif::burn("ExtDiagBlockIter::next");
         let raw_buffer = self.ext_diag.raw_diag_buffer()?;
         if self.cursor >= raw_buffer.len() {
             return None;
